@@ -483,6 +483,18 @@ static void run_case(char **ops, int nops)
 			st = kdump_set_attr(c, keystr(f[2], &t1), &a);
 			after_set(st, &a);
 			printf("%d", (int) st);
+		} else if (!strcmp(f[0], "SF") && nf == 6) {
+			/* a set whose post-set hook fails: a VMCOREINFO blob whose first row the
+			 * parser rejects; the value is stored all the same (the reference is stolen) */
+			kdump_ctx_t *c = CTX(1);
+			unsigned id = hx(f[4]);
+			if (!c || f[3][0] != 'b' || id >= MAXBLOB) { printf("BAD"); continue; }
+			if (!blobs[id]) blobs[id] = kdump_blob_new_dup(".X=1\nKEY=value\n", 15);
+			a.type = KDUMP_BLOB;
+			a.val.blob = blobs[id];
+			kdump_blob_incref(a.val.blob);
+			st = kdump_set_attr(c, keystr(f[2], &t1), &a);
+			printf("%d", (int) st);
 		} else if (!strcmp(f[0], "G") && nf == 3) {
 			kdump_ctx_t *c = CTX(1);
 			if (!c) { printf("BAD"); continue; }
